@@ -247,6 +247,45 @@ impl World<'_> {
         }
     }
 
+    /// A Byzantine participant offers node `j` a certificate that is genuinely signed by `a` / `b` (Byzantine validators only,
+    /// < 20 % of the stake: below every threshold) whose wire field `stake` is rewritten to `claim`. It goes through the
+    /// admission path certificates take on their way into a pool (wire decoder, `ValidatedCert::try_new`) and must be refused:
+    /// that is the premise `Valid` of the cluster theorems ("a delivered certificate meets its threshold on the distinct stake
+    /// of its listed signers"). Oracle only: nothing is written to the compared stream unless the certificate is admitted
+    /// (then it reaches the pool like any admitted certificate, so that the agreement oracles see the consequences).
+    fn inject_forged(&mut self, j: usize, ck: CK, slot: u64, h: usize, a: &[usize], b: &[usize], claim: u64) {
+        if self.nodes[j].as_ref().is_none_or(|n| n.dead) { return; }
+        debug_assert!(a.iter().chain(b.iter()).all(|v| self.byz[*v]));
+        let keys = self.keys;
+        let honest = build_cert(keys, ck, slot, h, a, b, self.epochs[0].epoch_info().validators());
+        let mut bytes = wincode::serialize(&ConsensusMessage::Cert(honest)).expect("serialize");
+        let at = bytes.len() - 8; // `stake` is the last field of every certificate type
+        bytes[at..].copy_from_slice(&claim.to_le_bytes());
+        let what = format!("forged {} certificate for slot {slot} block {h} offered to node {j}: signed by the Byzantine validators {a:?} / {b:?} (stake {} of {}), wire field `stake` = {claim}", ck.name(), self.stake_where(|v| a.contains(&v) || b.contains(&v)), self.total);
+        self.rec.count("forged-cert-injected");
+        let Ok(ConsensusMessage::Cert(c)) = alpenglow::network::deserialize::<ConsensusMessage>(&bytes) else {
+            self.rec.count("forged-cert:undecodable");
+            return;
+        };
+        let same_claim = c.stake().inner() == claim;
+        self.rec.oracle(same_claim, "harness-forged-cert-encoding", || format!("{what}: the decoded certificate declares {}", c.stake().inner()));
+        let res = catch(|| ValidatedCert::try_new(c, self.epochs[0].epoch_info()));
+        self.rec.oracle(!matches!(res, Ok(Ok(_))), "forged-cert-admitted", || format!("{what}: ValidatedCert::try_new admits it{}", self.ctx));
+        match res {
+            Err(msg) => { self.rec.oracle(false, "node-panic", || format!("{what}: ValidatedCert::try_new panicked: {msg}")); }
+            Ok(Err(_)) => self.rec.count("forged-cert:refused"),
+            Ok(Ok(vc)) => {
+                let node = self.nodes[j].as_mut().expect("node");
+                let rt = &self.rt;
+                if let Err(msg) = catch(|| rt.block_on(node.pool.add_cert(vc))) {
+                    self.panic_seen(j, &what, &msg);
+                    return;
+                }
+                let _ = self.drain_pool(j);
+            }
+        }
+    }
+
     /// collect what node j's votor broadcast; record history; queue for delivery
     fn collect_broadcasts(&mut self, j: usize, rng: &mut Rng, loss: u64) -> String {
         let keys = self.keys;
@@ -433,6 +472,8 @@ enum D {
     Nc(usize, CK, u64, usize, Vec<usize>, Vec<usize>),
     Pump(usize),
     To(usize, u64),
+    /// forged certificate (kind, slot, hash, Byzantine signers of both aggregates, declared stake) offered to node `j`
+    Forged(usize, CK, u64, usize, Vec<usize>, Vec<usize>, u64),
 }
 
 /// Directed cases: runs that the random scheduler is very unlikely to produce, found while proving the refinement theorem
@@ -478,6 +519,7 @@ fn directed(keys: &Keys, mut rec: Recorder, tag: &str, blocks: &[(usize, u64, u6
             }
             D::Pump(j) => w.pump(j, &mut rng, 0),
             D::To(j, s) => w.votor_event(j, format!("to {j} {s}"), &mut rng, 0, |v, rt| rt.block_on(v.verif_timeout(Slot::new(s), false))),
+            D::Forged(j, ck, slot, h, a, b, claim) => w.inject_forged(j, ck, slot, h, &a, &b, claim),
         }
     }
     // no node of a directed case may panic (case 2 reproduced defect D27 before its repair)
@@ -489,6 +531,21 @@ fn directed(keys: &Keys, mut rec: Recorder, tag: &str, blocks: &[(usize, u64, u6
         let fin = w.nodes[0].as_ref().expect("node").pool.finalized_slot().inner();
         w.rec.oracle(fin == 4, "directed-not-finalized", || format!("directed case {tag}: node 0 reports finalized slot {fin}, expected 4 (fast-finalization of (4,40) through the chain (3,32) -> (2,22) next to the notarized (2,21))"));
     }
+    if tag == "forged-certificates-with-inflated-stake" {
+        // besides X's and Y's notarization votes for (1,10) only certificates signed by Z alone (19 %) were offered: no pool
+        // may hold a certificate whose signers are all Byzantine, and Y, A (who saw nothing else) have finalized nothing
+        for j in 0..n {
+            let Some(nd) = w.nodes[j].as_ref() else { continue };
+            let fin = nd.pool.finalized_slot().inner();
+            if j != 0 {
+                w.rec.oracle(fin == 0, "forged-cert-admitted", || format!("directed case {tag}: node {j} reports finalized slot {fin} although it was only offered forged certificates signed by Z (19 %)"));
+            }
+            let held: Vec<String> = nd.pool.verif_certs(Slot::new(1)).iter()
+                .filter(|c| { let (a, b) = c.verif_signer_halves(); a.iter().chain(b.iter()).all(|v| byz[v.as_usize()]) })
+                .map(|c| fmt_cert(keys, c)).collect();
+            w.rec.oracle(held.is_empty(), "forged-cert-admitted", || format!("directed case {tag}: node {j} holds {held:?} for slot 1, signed by Byzantine validators only (19 % of the stake)"));
+        }
+    }
     let class = w.class;
     w.rec.end_case(class, true);
     w.rec
@@ -498,6 +555,7 @@ fn main() {
     let args = Args::parse();
     quiet_panics();
     let mut rng = Rng::new(args.seed);
+    let mut frng = Rng::new(args.seed ^ 0xF0_46ED_0000);
     let mut krng = Rng::new(0xA1A1);
     let keys = Keys::new(&mut krng);
     let timed = args.extra.iter().any(|a| a == "--timed");
@@ -533,6 +591,19 @@ fn main() {
              D::Nv(0, K::Nf, 3, 32, 0), D::Vb(0, 40), D::Pump(0), D::Pump(0), D::Pump(0),
              D::Nc(1, CK::Nf, 3, 32, vec![1, 2, 3], vec![0]), D::Vb(1, 40), D::Pump(1), D::Pump(1),
              D::Pb(0, 40), D::Nv(0, K::Notar, 4, 40, 0), D::Nv(0, K::Notar, 4, 40, 1)]);
+    // (3) what a single Byzantine validator (Z, 19 %) can put on the wire: certificates of every type for the sibling x' = (1,11)
+    //     of the block (1,10) that X fast-finalizes (and a skip certificate for that slot), genuinely signed by Z alone, with
+    //     the wire field `stake` claiming the total / exactly the threshold / u64::MAX. Admission must not look at that field.
+    let (t, q, sq) = (100u64, 60u64, 80u64);
+    rec = directed(&keys, rec, "forged-certificates-with-inflated-stake",
+        &[(10, 1, 0, 0), (11, 1, 0, 0)],
+        vec![D::Vb(0, 10), D::Vb(1, 10), D::Pb(0, 10), D::Nv(0, K::Notar, 1, 10, 0), D::Nv(0, K::Notar, 1, 10, 1), D::Pump(0), D::Pump(0),
+             D::Forged(0, CK::Ff, 1, 11, vec![3], vec![], t), D::Forged(1, CK::Ff, 1, 11, vec![3], vec![], sq), D::Forged(2, CK::Ff, 1, 11, vec![3], vec![], u64::MAX),
+             D::Forged(0, CK::Notar, 1, 11, vec![3], vec![], q), D::Forged(1, CK::Notar, 1, 11, vec![3], vec![], t),
+             D::Forged(0, CK::Final, 1, 0, vec![3], vec![], t), D::Forged(2, CK::Final, 1, 0, vec![3], vec![], q),
+             D::Forged(0, CK::Nf, 1, 11, vec![3], vec![3], t), D::Forged(1, CK::Nf, 1, 11, vec![], vec![3], q), D::Forged(2, CK::Nf, 1, 11, vec![3], vec![], u64::MAX),
+             D::Forged(0, CK::Skip, 1, 0, vec![3], vec![3], t), D::Forged(1, CK::Skip, 1, 0, vec![3], vec![], q), D::Forged(2, CK::Skip, 1, 0, vec![], vec![3], t),
+             D::Pump(0), D::Pump(1), D::Pump(2)]);
     }
     let mut progress_stats: BTreeMap<String, u64> = BTreeMap::new();
     for _case in 0..cases {
@@ -595,6 +666,28 @@ fn main() {
                         }
                     }
                     ps = s; ph = firsth;
+                }
+            }
+            // ---- forged certificates (own random stream `frng`; a refused certificate changes nothing, so the schedule the main
+            //      stream explores is what it was without this step): signed by Byzantine validators only, declaring a stake
+            //      that would meet the threshold
+            if frng.chance(1, 20) {
+                let bz: Vec<usize> = (0..n).filter(|v| w.byz[*v]).collect();
+                let hs: Vec<usize> = w.blocks.keys().copied().filter(|h| *h != 0).collect();
+                let dests: Vec<usize> = (0..n).filter(|d| w.nodes[*d].is_some() && !w.crashed[*d]).collect();
+                if !bz.is_empty() && !hs.is_empty() && !dests.is_empty() {
+                    let rng = &mut frng;
+                    let h = *rng.pick(&hs);
+                    let s = w.blocks[&h].0;
+                    let ck = *rng.pick(&[CK::Notar, CK::Nf, CK::Skip, CK::Ff, CK::Final]);
+                    let mut a: Vec<usize> = bz.iter().copied().filter(|_| rng.chance(2, 3)).collect();
+                    let mut b: Vec<usize> = if matches!(ck, CK::Nf | CK::Skip) { bz.iter().copied().filter(|_| rng.chance(1, 2)).collect() } else { vec![] };
+                    if a.is_empty() && (b.is_empty() || rng.chance(1, 2)) { a.push(*rng.pick(&bz)); }
+                    if matches!(ck, CK::Nf | CK::Skip) && rng.chance(1, 6) { b.append(&mut a); b.sort(); b.dedup(); }
+                    let need = |num: u64| (w.total * num).div_ceil(5);
+                    let claim = *rng.pick(&[w.total, need(3), need(4), u64::MAX, w.total - 1]);
+                    let j = *rng.pick(&dests);
+                    w.inject_forged(j, ck, s, if ck.has_hash() { h } else { 0 }, &a, &b, claim);
                 }
             }
             // ---- choose an action
